@@ -2,4 +2,5 @@
 #![allow(clippy::all, clippy::pedantic, dead_code, unused_imports)]
 #[path = "/verif/harness/common/io.rs"]
 mod io;
+mod ibc;
 mod ledger;
